@@ -595,19 +595,16 @@ void convex_hull(const Array<Vec2> points, Array<Vec2>& result) {
         }
     } else if (exitcode == qh_ERRsingular) {
         // QHull errors for singular input (collinear points in 2D)
-        Vec2 min = {DBL_MAX, DBL_MAX};
-        Vec2 max = {-DBL_MAX, -DBL_MAX};
+        // The hull is the segment between the 2 extreme points of the line
+        Vec2 min = points.items[0];
+        Vec2 max = points.items[0];
         Vec2* p = points.items;
         for (uint64_t num = points.count; num > 0; num--, p++) {
-            if (p->x < min.x) min.x = p->x;
-            if (p->x > max.x) max.x = p->x;
-            if (p->y < min.y) min.y = p->y;
-            if (p->y > max.y) max.y = p->y;
+            if (p->x < min.x || (p->x == min.x && p->y < min.y)) min = *p;
+            if (p->x > max.x || (p->x == max.x && p->y > max.y)) max = *p;
         }
-        if (min.x < max.x) {
-            result.append(min);
-            result.append(max);
-        }
+        result.append(min);
+        if (min.x != max.x || min.y != max.y) result.append(max);
     } else {
         // The least we can do
         result.extend(points);
